@@ -30,6 +30,8 @@ pub trait StrApi: Subj + AllFmt {
     fn to_str_radix_(&self, r: u32) -> String;
     fn to_radix_be_(&self, r: u32) -> Vec<u8>;
     fn to_radix_le_(&self, r: u32) -> Vec<u8>;
+    fn from_be_slice_(b: &[u8]) -> Option<Self>;
+    fn from_le_slice_(b: &[u8]) -> Option<Self>;
 }
 
 macro_rules! impl_strapi {
@@ -61,6 +63,12 @@ macro_rules! impl_strapi {
             }
             fn to_radix_le_(&self, r: u32) -> Vec<u8> {
                 self.to_radix_le(r)
+            }
+            fn from_be_slice_(b: &[u8]) -> Option<Self> {
+                Self::from_be_slice(b)
+            }
+            fn from_le_slice_(b: &[u8]) -> Option<Self> {
+                Self::from_le_slice(b)
             }
         }
     };
